@@ -167,20 +167,26 @@ def Url.password (u : Url) : Option (List Char) :=
   | some (_, some pw) => some pw
   | _ => none
 
+/-- `urlparse(...).hostname`: lower-cased, an IPv6 literal without its brackets -/
+def Url.hostname (u : Url) : List Char :=
+  (match u.host with
+   | '[' :: rest => rest.takeWhile (· ≠ ']')
+   | h => h).map Char.toLower
+
 /-- `environment.py:94-98`: when a non-empty password is present the network
 location is rebuilt as `username@hostname` — `hostname` is lower-cased by
-`urlparse` and the port is dropped along with the password; otherwise the URL
+`urlparse`, an IPv6 literal loses its brackets, and the port is dropped along with the password; otherwise the URL
 is left as it is. -/
 def stripPassword (u : Url) : List Char :=
   match u.auth with
   | some (us, some pw) =>
     if pw.isEmpty then u.render
-    else u.scheme ++ "://".toList ++ us ++ '@' :: u.host.map Char.toLower ++ u.rest
+    else u.scheme ++ "://".toList ++ us ++ '@' :: u.hostname ++ u.rest
   | _ => u.render
 
 /-- the URL with user name only, lower-cased host and no port -/
 def Url.userOnly (u : Url) (us : List Char) : Url :=
-  { scheme := u.scheme, auth := some (us, none), host := u.host.map Char.toLower, port := none, rest := u.rest }
+  { scheme := u.scheme, auth := some (us, none), host := u.hostname, port := none, rest := u.rest }
 
 /-- sub-list test -/
 def isInfix (p : List Char) : List Char → Bool
